@@ -112,3 +112,35 @@ def _restrict(snap, prefix):
     return ({p: v for p, v in files.items() if p.startswith(prefix)},
             {d for d in dirs if d.startswith(prefix)},
             {p: v for p, v in repos.items() if p.startswith(prefix)})
+
+
+# ---------------------------------------------------------------------------------------------- shared harness plumbing
+OPS = [(0, 0), (0, 1), (0, 2), (0, 3), (1, 0), (1, 1), (1, 3), (2, 0)]
+BOUNDS = {"quick": {"n": 2, "blen": 2}, "thorough": {"n": 3, "blen": 3}}
+STEP_ENCODES = [
+    "xandikos.store.git.GitStore.import_one", "xandikos.store.git.GitStore._check_duplicate",
+    "xandikos.store.git.GitStore._scan_uids", "xandikos.store.git.BareGitStore._import_one",
+    "xandikos.store.git.BareGitStore.delete_one", "xandikos.store.git.BareGitStore._commit_tree",
+    "xandikos.store.git.BareGitStore.get_ctag", "xandikos.store.git.TreeGitStore._import_one",
+    "xandikos.store.git.TreeGitStore.delete_one", "xandikos.store.git.TreeGitStore._commit_tree",
+    "xandikos.store.git.TreeGitStore.get_ctag", "xandikos.store.git.locked_index",
+    "xandikos.store.vdir.VdirStore.import_one", "xandikos.store.vdir.VdirStore.delete_one",
+    "xandikos.store.Store.get_file", "xandikos.store.git.GitStore.iter_with_etag",
+]
+
+
+def parts(kinds):
+    return [(k, op, cond) for k in kinds for (op, cond) in OPS]
+
+
+def expected_ctag(S):
+    """Tree id of a state: equal states <=> equal ids (A1)."""
+    import stat
+    t = Wm.Tree()
+    for name, body in S.items():
+        t[name.encode("utf-8")] = (0o644 | stat.S_IFREG, Wm.Blob.from_string(body).id)
+    return t.id.decode("ascii")
+
+
+def opname(op):
+    return ["put", "delete", "read"][op]
